@@ -35,7 +35,12 @@ def probe(pid):
     import geodepy.constants as gc
     import geodepy.angles as ga
     out = []
-    for label, key, fn, args in callforms.calls(pid):
+    try:
+        cs = callforms.calls(pid)
+    except Exception as e:
+        cs = []
+        out.append(['callforms:construction', ['raise', type(e).__name__]])
+    for label, key, fn, args in cs:
         out.append([key + ':' + label, _out(lambda: (lambda r: vars(r) if hasattr(r, '__dict__') and not isinstance(r, np.ndarray) else r)(fn(*args)))])
     if pid in ('C08', 'C12', 'C20'):
         # rejection lattice: HP values with a minutes / seconds field of 60..99 (and valid neighbours)
